@@ -60,7 +60,8 @@ func (n *RawNode) render(w *trimWriter, ctx nodeContext) Error {
 	for _, s := range n.slices {
 		_, err := io.WriteString(w, s)
 		if err != nil {
-			return wrapRenderError(err, n)
+			// a raw node has no source location of its own
+			return wrapRenderError(err, invalidLoc)
 		}
 	}
 	return nil
@@ -101,7 +102,8 @@ func (n *TextNode) render(w *trimWriter, _ nodeContext) Error {
 
 func (n *TrimNode) render(w *trimWriter, _ nodeContext) Error {
 	if n.TrimDirection == parser.Left {
-		return wrapRenderError(w.TrimLeft(), n)
+		// a trim node has no source location of its own
+		return wrapRenderError(w.TrimLeft(), invalidLoc)
 	} else {
 		w.TrimRight()
 		return nil
